@@ -539,12 +539,12 @@ func (r mRequest) String() string {
 
 // mBlockData: presence flags and contents of one block of a response.
 type mBlockData struct {
-	hash        [32]byte
-	header      *mHeader
-	body        *[][]byte // nil absent; may be empty
-	receipt     *[]byte
-	msgQueue    *[]byte
-	justificat  *[]byte
+	hash       [32]byte
+	header     *mHeader
+	body       *[][]byte // nil absent; may be empty
+	receipt    *[]byte
+	msgQueue   *[]byte
+	justificat *[]byte
 }
 
 func (d mBlockData) ref() []byte {
